@@ -53,6 +53,10 @@ def install_seg(I, W):
             return SEG_EXT["model.region_getattr"](I_, args, kw)
         return old(I_, args, kw)
     I.ext["builtins.getattr"] = _getattr
+    # the annotators' update() are used through their contracts (bodies proved in annotator_units())
+    for which in ("rp", "edge"):
+        c = AnnotatorUpdate(W, which)
+        ctx.contracts[c.qualname] = c
 
 
 def assume_seg_invariants(I, W, which=("S", "R", "Q")):
@@ -88,6 +92,9 @@ class UpdateNodeSegC(P.Prim):
             ("pixels-lie-in-the-node's-frame", core.t == T.tm(v0, W.K, node), ("C07", "C01")),
             ("added-pixels-are-background / removed-pixels-belong-to-the-node",
              forall([p_], IMP(core.mem(p_), v0.Seg(core.t, p_) == z3.If(added, 0, node))), ("C07", "C01")),
+            ("a-shrunk-node-keeps-at-least-one-pixel(otherwise-the-node-is-deleted-instead)",
+             IMP(z3.Not(added), z3.Exists([p_], AND(v0.Seg(core.t, p_) == node, z3.Not(core.mem(p_))))), ("C07",)),
+            ("node-id-is-not-the-background-label", node != 0, ("C07",)),
         ]
 
     def ensures(self, W, s0, s1, env):
@@ -118,3 +125,151 @@ class UpdateNodeSegC(P.Prim):
     def check_fields(self, I, W, s0, env, inst):
         return [("records-node-pixels-added", z3.BoolVal(inst.fields["pixels"] is env["pixels"] and inst.fields["node"] is env["node"]), ("C01",)),
                 ("records-added-flag", I.eq_formula(inst.fields["added"], env["added"]), ("C01",))]
+
+
+# =============================================================================== annotator update contracts
+from pyvc.values import Instance  # noqa: E402
+from pyvc.verify import call_real, repo  # noqa: E402
+
+RPA = "funtracks.annotators._regionprops_annotator.RegionpropsAnnotator"
+EA = "funtracks.annotators._edge_annotator.EdgeAnnotator"
+
+
+def _action_kind(action):
+    return action.cls.name if isinstance(action, Instance) else "?"
+
+
+def rp_update_ensures(ctx, W, s0, s1, action):
+    """RegionpropsAnnotator.update: AddNode / UpdateNodeSeg recompute every *active* regionprops key of the
+    action's node from its current mask (None when the mask is empty); every other action: nothing."""
+    v0, v1, K = s0.v, s1.v, W.K
+    if _action_kind(action) not in ("AddNode", "UpdateNodeSeg"):
+        return P.frames(s0, s1, ["A"], props=("C08", "C10"))
+    node = to_z3(action.fields["node"], Int)
+    _, rp, _, _ = rp_fun(ctx, v0.Seg)
+    t = T.tm(v0, K, node)
+    empty = forall([p_], v0.Seg(t, p_) != node)
+    expr = v0.A(a_, k_)
+    for ke, act, rpn in reversed(S.rp_keys(W)):
+        val = z3.If(empty, VNone, S.stored(rp(rpn, t, node, S.spacing_term(W))))
+        expr = z3.If(AND(a_ == node, k_ == ke, act), val, expr)
+    return [("active-measurements-of-the-node-recomputed-from-its-current-mask(only-active-keys-written)",
+             forall([a_, k_], v1.A(a_, k_) == expr), ("C08", "C10"))]
+
+
+def edge_update_ensures(ctx, W, s0, s1, action):
+    """EdgeAnnotator.update: AddEdge recomputes the IoU of that edge, UpdateNodeSeg of every edge incident to the
+    node - each endpoint's mask taken in its own frame; only when iou is active; every other action: nothing."""
+    v0, v1, K = s0.v, s1.v, W.K
+    kind = _action_kind(action)
+    if kind not in ("AddEdge", "UpdateNodeSeg"):
+        return P.frames(s0, s1, ["Ae"], props=("C09", "C10"))
+    _, _, io, ov = rp_fun(ctx, v0.Seg)
+    tm0 = lambda n: T.tm(v0, K, n)
+    if kind == "AddEdge":
+        u, w = (to_z3(x, Int) for x in action.fields["edge"])
+        affected = AND(a_ == u, b_ == w)
+    else:
+        node = to_z3(action.fields["node"], Int)
+        affected = AND(v0.E(a_, b_), OR(a_ == node, b_ == node))
+    return [("iou-of-the-affected-edges-is-the-overlap-of-the-endpoint-masks-each-in-its-own-frame",
+             forall([a_, b_, k_], v1.Ae(a_, b_, k_) == z3.If(AND(affected, k_ == W.iou_key, W.act["iou"]),
+                                                             io(tm0(a_), a_, tm0(b_), b_), v0.Ae(a_, b_, k_))), ("C09", "C10"))]
+
+
+class AnnotatorUpdate(Contract):
+    """call-site + verification form of <Annotator>.update(action)"""
+
+    def __init__(self, W, which):
+        self.W, self.which = W, which
+        self.qualname = (RPA if which == "rp" else EA) + ".update"
+        self.fn = rp_update_ensures if which == "rp" else edge_update_ensures
+        self.comp = "A" if which == "rp" else "Ae"
+
+    def requires(self, W, s0, action):
+        kind = _action_kind(action)
+        v0, K = s0.v, W.K
+        out = []
+        if kind in ("AddNode", "UpdateNodeSeg"):
+            node = to_z3(action.fields["node"], Int)
+            out.append(("node-in-graph-with-a-time", AND(v0.N(node), z3.Not(v0.A(node, K.tk) == VNone)), ("C08",)))
+            out.append(("label-0-is-background-not-a-node", z3.Not(v0.N(0)), ("C07",)))
+        if kind == "AddEdge" and self.which == "edge":
+            u, w = (to_z3(x, Int) for x in action.fields["edge"])
+            out.append(("edge-in-graph-endpoints-have-times", AND(v0.E(u, w), z3.Not(v0.A(u, K.tk) == VNone), z3.Not(v0.A(w, K.tk) == VNone)), ("C09",)))
+            out.append(("label-0-is-background-not-a-node", z3.Not(v0.N(0)), ("C07",)))
+        if kind == "UpdateNodeSeg" and self.which == "edge":
+            out.append(("forest-degrees(in<=1,out<=2)-and-times", AND(forall([a_], AND(v0.idg(a_) <= 1, v0.od(a_) <= 2)),
+                                                                      forall([a_], IMP(v0.N(a_), z3.Not(v0.A(a_, K.tk) == VNone)))), ("C09",)))
+        return out
+
+    def apply(self, I, args, kw):
+        W, ctx = self.W, I.ctx
+        _self, action = args
+        s0 = C.Snap(W, I)
+        tag = f"call:{_action_kind(action)}/{'Regionprops' if self.which == 'rp' else 'Edge'}Annotator.update"
+        for lbl, f, props in self.requires(W, s0, action):
+            ctx.oblige(f"{tag}/requires:{lbl}", f, kind="pre", props=props)
+        if _action_kind(action) not in (("AddNode", "UpdateNodeSeg") if self.which == "rp" else ("AddEdge", "UpdateNodeSeg")):
+            return None
+        C.havoc_components(I, W, [self.comp])
+        s1 = C.Snap(W, I)
+        for lbl, f, props in self.fn(ctx, W, s0, s1, action):
+            ctx.assume(f, "ann." + self.which)
+        return None
+
+
+class AnnotatorUpdateBody(Contract):
+    """verification of the real update() bodies against the same clauses"""
+
+    props = ("C08", "C09", "C10")
+
+    def __init__(self, which, kind):
+        self.which, self.kind = which, kind
+        self.qualname = (RPA if which == "rp" else EA) + ".update"
+
+    def run(self, I, cfg):
+        ctx = I.ctx
+        W = C.world(I, has_seg=True, inv=())
+        install_seg(I, W)
+        W.spacing_tuple = to_z3(W.scale.spacing, Val)
+        P.install_loopspecs(I, W)
+        con = AnnotatorUpdate(W, self.which)
+        kind = self.kind
+        acts = repo()
+        fields = {"tracks": W.tracks}
+        if kind in ("AddNode", "UpdateNodeSeg"):
+            fields["node"] = Sym(ctx.fresh("node", Int))
+            cls = acts.get_class(f"{ACT}.add_delete_node.AddNode" if kind == "AddNode" else f"{ACT}.update_segmentation.UpdateNodeSeg")
+        elif kind == "AddEdge":
+            fields["edge"] = (Sym(ctx.fresh("u", Int)), Sym(ctx.fresh("w", Int)))
+            cls = acts.get_class(f"{ACT}.add_delete_edge.AddEdge")
+        else:
+            fields["edge"] = (Sym(ctx.fresh("u", Int)), Sym(ctx.fresh("w", Int)))
+            cls = acts.get_class(f"{ACT}.add_delete_edge.DeleteEdge")
+        action = Instance(cls, fields)
+        s0 = C.Snap(W, I)
+        for lbl, f, props in con.requires(W, s0, action):
+            ctx.assume(f)
+        ann = W.rp if self.which == "rp" else W.ea
+        out = call_real(I, self.qualname, [ann, action])
+        q = ("RegionpropsAnnotator" if self.which == "rp" else "EdgeAnnotator") + f".update[{kind}]"
+        if out[0] != "return":
+            ctx.oblige(f"{q}/no-exception", False, props=self.props)
+            return out
+        s1 = C.Snap(W, I)
+        for lbl, f, props in con.fn(ctx, W, s0, s1, action):
+            ctx.oblige(f"{q}/ensures:{lbl}", f, props=props)
+        comps = [c for c in C.ALL_COMPONENTS if c != con.comp]
+        for lbl, f in C.unchanged(s0, s1, comps):
+            ctx.oblige(f"{q}/ensures:{lbl}", f, props=("C16", "C10"))
+        return out
+
+
+def annotator_units():
+    from pyvc.verify import Unit
+    out = []
+    for which, kinds in (("rp", ("AddNode", "UpdateNodeSeg", "DeleteEdge")), ("edge", ("AddEdge", "UpdateNodeSeg", "DeleteEdge"))):
+        for k in kinds:
+            out.append(Unit(AnnotatorUpdateBody(which, k), name=f"{'Regionprops' if which == 'rp' else 'Edge'}Annotator.update[{k}]"))
+    return out
